@@ -113,7 +113,19 @@ class CallGraph:
                         work.append(d)
             exact = None
             if fn is not None and call.get("k") == "MCall":
-                fld = self._ptr_field(call.get("recv"))
+                recv = call.get("recv")
+                fld = self._ptr_field(recv)
+                if fld is None:
+                    # a local reference bound to `*m_f` (a helper's parameter after inlining) names the same object
+                    rp = ir.path(recv)
+                    if rp and len(rp) == 1 and rp[0].startswith("l:"):
+                        envs = self.__dict__.setdefault("_envs", {})
+                        env = envs.get(fn["key"])
+                        if env is None:
+                            env = envs[fn["key"]] = ir.Env(fn["body"])
+                        d = env.defs.get(rp[0])
+                        if d is not None and rp[0] not in env.assigned:
+                            fld = self._ptr_field(d)
                 if fld is not None:
                     exact = self.field_types.get((fn.get("cls"), fld))
             for k in keys:
